@@ -152,7 +152,7 @@ M("C05", "pin flags swapped at dispatch", F, "cli.py", "            pin_incremen
 M("C05", "tag_num dropped from update's dispatch", F, "cli.py", "            tag=tag,\n            tag_num=tag_num,\n            pin_increments=pin_increments,\n            pin_date=pin_date,\n            maybe_date=maybe_date,\n        )\n    else:\n        new_version = set_version\n\n    if new_version is None:\n        _log_no_change('update'",
   "            tag=tag,\n            pin_increments=pin_increments,\n            pin_date=pin_date,\n            maybe_date=maybe_date,\n        )\n    else:\n        new_version = set_version\n\n    if new_version is None:\n        _log_no_change('update'", "tag_num")
 M("C05", "auto increments ignore the pin", F, "v2version.py", "    if not pin_increments:\n        cur_vinfo = cur_vinfo._replace(inc0=cur_vinfo.inc0 + 1)", "    if True:\n        cur_vinfo = cur_vinfo._replace(inc0=cur_vinfo.inc0 + 1)", "inc0")
-M("C05", "num reset although tag unchanged", F, "v2version.py", "        if tag != cur_vinfo.tag:\n            cur_vinfo = cur_vinfo._replace(num=0)", "        cur_vinfo = cur_vinfo._replace(num=0)", "NUM")
+M("C05", "num reset although tag unchanged", F, "v2version.py", "        if tag != cur_vinfo.tag:\n            cur_vinfo = cur_vinfo._replace(num=0)", "        cur_vinfo = cur_vinfo._replace(num=0)", "bumped record")
 M("C05", "pinned week by truthiness (pre-fix shape)", F, "v2version.py", "        defaults.week_w if vinfo.week_w is None else vinfo.week_w,", "        vinfo.week_w or defaults.week_w,", "truthiness")
 M("C05", "future guard arguments swapped", F, "v2version.py", "    if _is_cal_gt(old_vinfo, cur_cinfo):\n        logger.warning(f\"Old version appears to be from the future '{old_version}'\")\n        cur_vinfo = old_vinfo\n    else:\n        cur_vinfo = old_vinfo._replace(**cur_cinfo._asdict())\n\n    has_tag_part",
   "    if _is_cal_gt(cur_cinfo, old_vinfo):\n        logger.warning(f\"Old version appears to be from the future '{old_version}'\")\n        cur_vinfo = old_vinfo\n    else:\n        cur_vinfo = old_vinfo._replace(**cur_cinfo._asdict())\n\n    has_tag_part", "future guard")
@@ -330,12 +330,12 @@ M("C16", "twin: dev group spelled d(?:ev)", S, "setuptools_v65_version.py", "(?P
 M("C16", "trailing zeros kept", F, "setuptools_v65_version.py", "    _release = tuple(reversed(list(itertools.dropwhile(lambda x: x == 0, reversed(release)))))", "    _release = tuple(release)", "_cmpkey")
 
 # =============================================================================== C17
-M("C17", "next_id only without --tag", F, "v2version.py", "    cur_vinfo = cur_vinfo._replace(bid=lexid.next_id(cur_vinfo.bid))\n    return _reset_rollover_fields", "    if not tag:\n        cur_vinfo = cur_vinfo._replace(bid=lexid.next_id(cur_vinfo.bid))\n    return _reset_rollover_fields", "condition")
+M("C17", "next_id only without --tag", F, "v2version.py", "    cur_vinfo = cur_vinfo._replace(bid=lexid.next_id(cur_vinfo.bid))\n    return _reset_rollover_fields", "    if not tag:\n        cur_vinfo = cur_vinfo._replace(bid=lexid.next_id(cur_vinfo.bid))\n    return _reset_rollover_fields", "not advanced")
 M("C17", "bid added to the reset table", F, "version.py", "    'inc1' : \"1\",\n}", "    'inc1' : \"1\",\n    'bid'  : \"1000\",\n}", "resets BUILD")
 M("C17", "bid read through int()", F, "v2version.py", "    bid   = fvals['bid'] if 'bid' in fvals else \"1000\"", "    bid   = str(int(fvals['bid'])) if 'bid' in fvals else \"1000\"", "converted on read")
 M("C17", "padding after the successor", F, "v2version.py", "    # prevent truncation of leading zeros\n    if int(cur_vinfo.bid) < 1000:\n        cur_vinfo = cur_vinfo._replace(bid=str(int(cur_vinfo.bid) + 1000))\n\n    cur_vinfo = cur_vinfo._replace(bid=lexid.next_id(cur_vinfo.bid))",
   "    cur_vinfo = cur_vinfo._replace(bid=lexid.next_id(cur_vinfo.bid))\n    # prevent truncation of leading zeros\n    if int(cur_vinfo.bid) < 1000:\n        cur_vinfo = cur_vinfo._replace(bid=str(int(cur_vinfo.bid) + 1000))\n", "padding")
-M("C17", "padding offset differs from threshold", F, "v2version.py", "cur_vinfo = cur_vinfo._replace(bid=str(int(cur_vinfo.bid) + 1000))", "cur_vinfo = cur_vinfo._replace(bid=str(int(cur_vinfo.bid) + 100))", "threshold")
+M("C17", "padding offset differs from threshold", F, "v2version.py", "cur_vinfo = cur_vinfo._replace(bid=str(int(cur_vinfo.bid) + 1000))", "cur_vinfo = cur_vinfo._replace(bid=str(int(cur_vinfo.bid) + 100))", "padding step")
 M("C17", "BUILD formatter canonicalises", F, "v2patterns.py", "    'BUILD'  : _fmt_num,", "    'BUILD'  : _fmt_bld,", "BUILD")
 M("C17", "own successor arithmetic", F, "v2version.py", "    cur_vinfo = cur_vinfo._replace(bid=lexid.next_id(cur_vinfo.bid))\n    return _reset_rollover_fields", "    cur_vinfo = cur_vinfo._replace(bid=str(int(cur_vinfo.bid) + 1))\n    return _reset_rollover_fields", "lexid.next_id")
 M("C17", "v1 successor only when calendar unchanged", F, "v1version.py", "    cur_vinfo = cur_vinfo._replace(bid=lexid.next_id(cur_vinfo.bid))\n\n    if major:", "    if not major:\n        cur_vinfo = cur_vinfo._replace(bid=lexid.next_id(cur_vinfo.bid))\n\n    if major:", "flag")
